@@ -64,7 +64,7 @@ theorem barrier_background_witness :
       some q ∉ mid.map Step.ver ++ [i.ver] ∧              -- whose version has not come back
       ¬ (tq + T ≤ t) :=                                   -- and the timeout has not elapsed
   ⟨320, 320, [], { ver := some ⟨105, false⟩, now := 101, dur := 0, pressure := false, wake := none, lag := 0,
-                    gone := false, required := true, patchInit := true, patchMid := true, patched := none,
+                    gone := false, required := true, patchMid := true, patched := none,
                     tp := 101, tret := 101 },
    ⟨106, false⟩, ⟨105, false⟩, 100, 101, by decide, by decide, rfl, by decide, by decide, by decide⟩
 
@@ -274,7 +274,7 @@ theorem deadline_with_patch_regression_witness :
     ∃ (it : Iter), it.patchMid = false ∧ it.now = 500 ∧
       achievedPre5dff3c1 423 it = false ∧ (process (some 423) it).handlers = some 500 :=
   ⟨{ ver := some ⟨107, false⟩, now := 500, dur := 0, pressure := false, wake := none, lag := 0, gone := false,
-     required := true, patchInit := true, patchMid := false, patched := some ⟨107, false⟩, tp := 502, tret := 503 },
+     required := true, patchMid := false, patched := some ⟨107, false⟩, tp := 502, tret := 503 },
    rfl, rfl, by decide, by decide⟩
 
 /-- **Released by the timeout.** The dual of `interrupted_never_achieved`: a barrier sleep that ran into its
@@ -323,13 +323,14 @@ theorem paused_holds_run (T : Int) (pre : List Step) (i : Iter) (d : Int)
   rw [ho]
   exact ⟨(paused_holds d i hreq hp).2.1, (paused_holds d i hreq hp).2.2.2.1⟩
 
-/-- The pause is read only while a version is awaited: with `consistency_time = None` the processor does
-    the same whether the operator is paused or not (events that are still queued when the operator gets
-    paused are handled as always — not this barrier's business). -/
+/-- The pause does not touch the VERDICT when nothing is awaited: with `consistency_time = None` the processor
+    decides the same whether the operator is paused or not (events that are still queued when the operator gets
+    paused are handled as always — not this barrier's business). Only the waiting delay of an iteration that a
+    carried patch holds back is withheld while paused (`wait_only_when_held`). -/
 theorem pause_ignored_when_nothing_expected (it : Iter) (b : Bool) :
-    process none { it with paused := b } = process none it := by
+    { process none { it with paused := b } with wait := (process none it).wait } = process none it := by
   rw [process_closed, process_closed]
-  simp [processClosed]
+  simp [processClosed, Iter.patchInit]
 
 /-- **The awaited version releases, paused or not.** After ANY history — held-back iterations while paused
     included — the event that carries the version the worker expects (e.g. the object as the re-listing
@@ -364,20 +365,146 @@ theorem paused_timeout_regression_witness :
       (outcomeAt 320 (exec 320 Cfg.init [.event k]) i).held = true ∧                      -- after the fix
       (outcomeAt 320 (exec 320 Cfg.init [.event k]) i).handlers = none :=
   ⟨{ ver := some ⟨105, false⟩, now := 100, dur := 0, pressure := false, wake := none, lag := 0, gone := false,
-     required := true, patchInit := true, patchMid := true, patched := some ⟨106, false⟩, tp := 102, tret := 103 },
+     required := true, patchMid := true, patched := some ⟨106, false⟩, tp := 102, tret := 103 },
    { ver := some ⟨104, false⟩, now := 110, dur := 0, pressure := false, wake := none, lag := 0, gone := false,
-     required := true, patchInit := true, patchMid := true, patched := none, tp := 423, tret := 423, paused := true },
+     required := true, patchMid := true, patched := none, tp := 423, tret := 423, paused := true },
    ⟨106, false⟩, ⟨104, false⟩, rfl, rfl, by decide, rfl, by decide, by decide, by decide, by decide, by decide⟩
 
-/-- **Held back for good: the barrier's release is not guaranteed** (finding C07-F2 = C03-N6; the liveness side,
-    which the property's "until … the consistency timeout has elapsed" suggests). Iteration `k` PATCHes (106 at
+/-- **A held-back iteration comes back** (fix 30557a0 and the rework of 608a57d; the release side of "until … the
+    consistency timeout has elapsed"; was the open finding C07-F2 = C03-N6, `held_for_good_regression_witness`
+    below). EVERY iteration that returns early while the operator is not paused when the consistency block is left
+    reports a waiting delay `w` to `application.apply`: while a version is awaited (`consistency_time = d`, any
+    value) exactly what is left till the deadline at that moment, `left + w = max left d` (0 when the deadline is
+    over); when nothing is awaited — then only a patch carried over from a 422 holds back — 0: "come back at once".
+    Whatever the cause (GONE included), the patch (empty, accumulated by the low-level handlers, carried over), the
+    pressure, a sleep that was taken and interrupted or none at all.
+    "Followed" in this model means just that: the delay is RETURNED. What is done with it is `application.apply`'s
+    (C03/C08): no sleep if the patch changed the object (its event will come), else a sleep till then — cut short
+    by any new event — and a touch of the object (whose event will come); the view that arrives then is let
+    through: `come_back_is_released(+_run)`. -/
+theorem held_comes_back (dl : Option Int) (it : Iter)
+    (hheld : (process dl it).held = true) (hrun : it.paused = false) :
+    ∃ w, (process dl it).wait = some w ∧ 0 ≤ w ∧
+      (∀ d, dl = some d → (process dl it).left + w = max (process dl it).left d) ∧ (dl = none → w = 0) := by
+  cases dl with
+  | none =>
+    refine ⟨0, ?_, Int.le_refl _, ?_, fun _ => rfl⟩
+    · rw [process_wait, hheld, hrun]; rfl
+    · intro d hd; cases hd
+  | some d =>
+    refine ⟨max 0 (d - (process (some d) it).left), ?_, ?_, ?_, ?_⟩
+    · rw [process_wait, hheld, hrun]; rfl
+    · omega
+    · intro d' hd; cases hd; omega
+    · intro hd; cases hd
+
+/-- … lifted to runs: after ANY history (well-formed or not), an iteration that is held back while the operator is
+    not paused asks to be visited again: when the waiting time is over, or at once if nothing is awaited. -/
+theorem held_comes_back_run (T : Int) (pre : List Step) (i : Iter)
+    (hheld : (outcomeAt T (exec T Cfg.init pre) i).held = true) (hrun : i.paused = false) :
+    ∃ w, (outcomeAt T (exec T Cfg.init pre) i).wait = some w ∧ 0 ≤ w ∧
+      (∀ d, (outcomeAt T (exec T Cfg.init pre) i).given = some d →
+        (outcomeAt T (exec T Cfg.init pre) i).left + w = max (outcomeAt T (exec T Cfg.init pre) i).left d) ∧
+      ((outcomeAt T (exec T Cfg.init pre) i).given = none → w = 0) := by
+  have hg : (outcomeAt T (exec T Cfg.init pre) i).given = (arrive (exec T Cfg.init pre).s i.ver).deadline :=
+    process_given _ i
+  rw [hg]
+  exact held_comes_back (arrive (exec T Cfg.init pre).s i.ver).deadline i hheld hrun
+
+/-- A waiting delay is reported by held-back iterations only, and never while the operator is paused (then nothing
+    is to be written; the un-pausing brings a fresh listing). So the delays that `application.apply` gets from an
+    iteration that was let through are the handlers' own, as before. Its value: what is left till the deadline
+    while a version is awaited; 0 for a patch carried over from a 422 when nothing is awaited. -/
+theorem wait_only_when_held (dl : Option Int) (it : Iter) (w : Int) (hw : (process dl it).wait = some w) :
+    (process dl it).held = true ∧ it.paused = false ∧ (process dl it).entered = none ∧
+      ((∃ d, dl = some d ∧ w = max 0 (d - (process dl it).left)) ∨ (dl = none ∧ w = 0 ∧ it.carried = true)) := by
+  have h := process_wait dl it
+  rw [hw] at h
+  cases hh : (process dl it).held <;> cases hp : it.paused <;> simp [hh, hp] at h
+  refine ⟨rfl, rfl, process_held_entered hh, ?_⟩
+  cases dl with
+  | none =>
+    right
+    refine ⟨rfl, h, ?_⟩
+    have h2 := (process_none it).2.2
+    rw [hh] at h2
+    have h3 : it.patchInit = false := by
+      cases hr : it.required <;> cases hi : it.patchInit <;> simp [hr, hi] at h2 ⊢
+    exact (patchInit_false_iff it).mp h3
+  | some d => left; exact ⟨d, rfl, h⟩
+
+/-- **The visit that the delay asks for is late enough.** An iteration that reaches the barrier no earlier than
+    a held-back one asked for (`left + w`), with the same deadline still awaited, no pending patch, not paused,
+    is let through at once (`released_after_deadline`: patch or no patch, pressure or not). -/
+theorem come_back_is_released (d : Int) (it j : Iter) (w : Int)
+    (hw : (process (some d) it).wait = some w)
+    (hlate : (process (some d) it).left + w ≤ j.now + j.dur)
+    (hreq : j.required = true) (hinit : j.patchInit = true) (hd : d ≠ 0) (hrun : j.paused = false) :
+    (process (some d) j).slept = none ∧ (process (some d) j).held = false ∧
+      (process (some d) j).entered = some (j.now + j.dur) := by
+  obtain ⟨_, _, _, hcase⟩ := wait_only_when_held (some d) it w hw
+  rcases hcase with ⟨d', hd', hwd⟩ | ⟨hnone, _, _⟩
+  · have hdd : d = d' := Option.some.inj hd'
+    generalize (process (some d) it).left = L at hlate hwd
+    have hpast : d ≤ j.now + j.dur := by omega
+    exact released_after_deadline d j hreq hinit hd hpast hrun
+  · cases hnone
+
+/-- … lifted to runs. Iteration `i` is held back and reports `w`; its writes change nothing on the server
+    (`hnoop`: no PATCH, or answered with the version just processed — otherwise the worker awaits THAT write
+    afresh: `barrier_partial`); `j` is the next thing the worker dequeues — the object as `apply`'s touch has left
+    it, or anything else — reaching the barrier no earlier than `i` asked for. Then `j` is NOT held back,
+    whatever version it carries: the awaited one resets the worker, any other finds the deadline over. -/
+theorem come_back_is_released_run (T : Int) (pre : List Step) (i j : Iter) (d w : Int)
+    (hgiven : (outcomeAt T (exec T Cfg.init pre) i).given = some d)
+    (hw : (outcomeAt T (exec T Cfg.init pre) i).wait = some w)
+    (hnoop : i.patched = none ∨ i.patched = i.ver)
+    (hlate : (outcomeAt T (exec T Cfg.init pre) i).left + w ≤ j.now + j.dur)
+    (hreq : j.required = true) (hinit : j.patchInit = true) (hd : d ≠ 0) (hrun : j.paused = false) :
+    (outcomeAt T (exec T Cfg.init (pre ++ [.event i])) j).held = false ∧
+      (outcomeAt T (exec T Cfg.init (pre ++ [.event i])) j).entered = some (j.now + j.dur) := by
+  have hdl : (arrive (exec T Cfg.init pre).s i.ver).deadline = some d := by
+    have := process_given (arrive (exec T Cfg.init pre).s i.ver).deadline i
+    show (arrive (exec T Cfg.init pre).s i.ver).deadline = some d
+    rw [← this]; exact hgiven
+  have ho : outcomeAt T (exec T Cfg.init pre) i = process (some d) i := by
+    show process (arrive (exec T Cfg.init pre).s i.ver).deadline i = _
+    rw [hdl]
+  rw [ho] at hw hlate
+  -- the worker's locals after `i` are what the arrival of `i`'s event left
+  have hs : (exec T Cfg.init (pre ++ [.event i])).s = arrive (exec T Cfg.init pre).s i.ver := by
+    rw [exec_append]
+    show (stepEvent T (exec T Cfg.init pre).s i).1 = _
+    cases hp : i.patched with
+    | none => exact stepEvent_state_nopatch hp
+    | some p =>
+      rcases hnoop with h | h
+      · rw [hp] at h; cases h
+      · exact stepEvent_state_noop hp (by rw [← h, hp])
+  have hoj : outcomeAt T (exec T Cfg.init (pre ++ [.event i])) j
+      = process (arrive (arrive (exec T Cfg.init pre).s i.ver) j.ver).deadline j := by
+    show process (arrive (exec T Cfg.init (pre ++ [.event i])).s j.ver).deadline j = _
+    rw [hs]
+  rw [hoj]
+  rcases arrive_cases (arrive (exec T Cfg.init pre).s i.ver) j.ver with ⟨h, _, _⟩ | ⟨h, _⟩
+  · rw [h, process_closed]
+    simp [processClosed, WState.init, hreq, hinit]
+  · rw [h, hdl]
+    exact (come_back_is_released d i j w hw hlate hreq hinit hd hrun).2
+
+/-- What the early return reported BEFORE fix 30557a0: nothing, ever. -/
+def waitPre30557a0 (_ : Option Int) (_ : Iter) : Option Int := none
+
+/-- **Regression witness** (was `held_for_good_witness`: finding C07-F2 = C03-N6). Iteration `k` PATCHes (106 at
     102), the worker expects 106 until 423; the echo is lost (the operator was paused, or the stream was cut and
     re-listed). The next view 107 arrives at 200, before the deadline, with a patch accumulated by the low-level
     handlers (`patchMid = false`: e.g. an on.event handler's constant result): no sleep, early return; its PATCH
-    changes nothing and is answered with 107 itself, so nothing new is armed and no event follows. The worker
-    idles past the deadline and retires at 523: a complete, well-formed life of the stream in which the change
-    at hand never reaches a change handler, although the operator is not paused and the timeout has elapsed. -/
-theorem held_for_good_witness :
+    changes nothing and is answered with 107 itself, so the worker arms nothing new, and no event follows. Before
+    the fix nobody was asked to act at the deadline: the worker, left alone, idles past it and retires at 523 — a
+    complete, well-formed life of the stream in which the change at hand never reaches a change handler. Now the
+    early return reports 223 = 423 − 200: `apply` sleeps till 423 and touches the object, and the next view —
+    reaching the barrier at 423 or later — is let through (`come_back_is_released_run`). -/
+theorem held_for_good_regression_witness :
     ∃ (k i : Iter) (r : Int) (d : Int),
       wf 320 320 Cfg.init [.event k, .event i, .retire r] = true ∧
       (exec 320 Cfg.init [.event k]).s.deadline = some d ∧ i.now + i.dur < d ∧ d ≤ r ∧
@@ -385,13 +512,49 @@ theorem held_for_good_witness :
       (outcomeAt 320 (exec 320 Cfg.init [.event k]) i).slept = none ∧
       (outcomeAt 320 (exec 320 Cfg.init [.event k]) i).held = true ∧
       (exec 320 Cfg.init [.event k, .event i]).s = (exec 320 Cfg.init [.event k]).s ∧     -- nothing re-armed
-      outcomes 320 Cfg.init [.event k, .event i, .retire r] =                              -- … and that is all
-        [outcomeAt 320 Cfg.init k, outcomeAt 320 (exec 320 Cfg.init [.event k]) i] :=
+      waitPre30557a0 (exec 320 Cfg.init [.event k]).s.deadline i = none ∧                  -- before the fix
+      (outcomeAt 320 (exec 320 Cfg.init [.event k]) i).left = 200 ∧                        -- after the fix:
+      (outcomeAt 320 (exec 320 Cfg.init [.event k]) i).wait = some 223 :=                  -- come back at 423 = d
   ⟨{ ver := some ⟨105, false⟩, now := 100, dur := 0, pressure := false, wake := none, lag := 0, gone := false,
-     required := true, patchInit := true, patchMid := true, patched := some ⟨106, false⟩, tp := 102, tret := 103 },
+     required := true, patchMid := true, patched := some ⟨106, false⟩, tp := 102, tret := 103 },
    { ver := some ⟨107, false⟩, now := 200, dur := 0, pressure := false, wake := none, lag := 0, gone := false,
-     required := true, patchInit := true, patchMid := false, patched := some ⟨107, false⟩, tp := 202, tret := 203, listed := true },
-   523, 423, by decide, by decide, by decide, by decide, rfl, rfl, rfl, rfl, rfl, by decide, by decide, by decide, by decide⟩
+     required := true, patchMid := false, patched := some ⟨107, false⟩, tp := 202, tret := 203, listed := true },
+   523, 423, by decide, by decide, by decide, by decide, rfl, rfl, rfl, rfl, rfl, by decide, by decide, by decide, rfl,
+   by decide, by decide⟩
+
+/-- With nothing awaited, change handlers are held back exactly for a patch carried over from a 422 (re-sent by
+    this cycle; whether it still has anything to do is decided when patching, on the freshest state). -/
+theorem pending_holds_iff (it : Iter) :
+    (process none it).held = true ↔ it.required = true ∧ it.carried = true := by
+  rw [(process_none it).2.2, Bool.and_eq_true, Bool.not_eq_true', patchInit_false_iff]
+
+/-- … and such an iteration asks to be visited again AT ONCE (the rework of 608a57d; was C03-N2 / C06-F9): if the
+    carried transformations are fulfilled already, nothing is sent and no event follows — the zero delay makes
+    `apply` touch the object, and the handlers run on the touch's event (the carried patch is gone by then). -/
+theorem pending_comes_back_at_once (it : Iter)
+    (hreq : it.required = true) (hc : it.carried = true) (hrun : it.paused = false) :
+    (process none it).held = true ∧ (process none it).wait = some 0 := by
+  have hh : (process none it).held = true := (pending_holds_iff it).mpr ⟨hreq, hc⟩
+  refine ⟨hh, ?_⟩
+  rw [process_wait, hh, hrun]; rfl
+
+/-- What the early return reported before the rework of 608a57d (as of 30557a0 alone): a delay only while a
+    version is awaited. -/
+def waitPreN2rework (dl : Option Int) (it : Iter) : Option Int :=
+  match dl with | some _ => (process dl it).wait | none => none
+
+/-- **Regression witness** (C03-N2 / C06-F9 seen through the barrier). A handler's idempotent transformation was
+    rejected (422) because a foreign change slipped in — which happens to fulfil it. The slipped-in view 107 arrives
+    at 200, nothing is awaited. The carried patch holds the change handlers back "for the sake of an instant
+    re-patching" — which sends nothing (no operation), arms nothing, brings no event. Before: no delay either, the
+    change 107 was never handled. Now: "come back at once". -/
+theorem carried_fulfilled_regression_witness :
+    ∃ (it : Iter), it.carried = true ∧ it.required = true ∧ it.patched = none ∧
+      (process none it).held = true ∧ waitPre30557a0 none it = none ∧ waitPreN2rework none it = none ∧
+      (process none it).left = 200 ∧ (process none it).wait = some 0 :=
+  ⟨{ ver := some ⟨107, false⟩, now := 200, dur := 0, pressure := false, wake := none, lag := 0, gone := false,
+     required := true, carried := true, patchMid := false, patched := none, tp := 200, tret := 200 },
+   rfl, rfl, rfl, by decide, rfl, rfl, by decide, by decide⟩
 
 /-- **Disabled.** With `consistency_timeout = 0` the worker never expects anything, the processor is
     always called with `consistency_time = None`, never sleeps, and holds change handlers back only
@@ -460,9 +623,9 @@ theorem listed_view_is_not_consistency_witness :
       (process (arriveListedClears (exec 320 Cfg.init [.event k]).s i).deadline i).handlers = some t ∧
       ¬ (k.tp + 320 ≤ t) ∧ some p ∉ [k.ver, i.ver] :=                                  -- the variant: too early
   ⟨{ ver := some ⟨105, false⟩, now := 100, dur := 0, pressure := false, wake := none, lag := 0, gone := false,
-     required := true, patchInit := true, patchMid := true, patched := some ⟨106, false⟩, tp := 102, tret := 103 },
+     required := true, patchMid := true, patched := some ⟨106, false⟩, tp := 102, tret := 103 },
    { ver := some ⟨105, false⟩, now := 110, dur := 0, pressure := true, wake := none, lag := 0, gone := false,
-     required := true, patchInit := true, patchMid := true, patched := none, tp := 110, tret := 110, listed := true },
+     required := true, patchMid := true, patched := none, tp := 110, tret := 110, listed := true },
    ⟨106, false⟩, ⟨105, false⟩, 110, rfl, rfl, rfl, by decide, by decide, by decide, by decide, by decide, by decide⟩
 
 /-- **A PATCH that changed nothing arms nothing** (fix 460c956). The server answers a no-op PATCH with the
@@ -519,41 +682,41 @@ theorem noop_stall_regression_witness :
       (outcomeAt 320 (exec 320 Cfg.init [.event k]) i).handlers = some 110 ∧
       (outcomeAt 320 (exec 320 Cfg.init [.event k, .event i]) late).handlers = some 400 :=
   ⟨{ ver := some ⟨105, false⟩, now := 100, dur := 0, pressure := false, wake := none, lag := 0, gone := false,
-     required := true, patchInit := true, patchMid := true, patched := some ⟨105, false⟩, tp := 102, tret := 103 },
+     required := true, patchMid := true, patched := some ⟨105, false⟩, tp := 102, tret := 103 },
    { ver := some ⟨106, false⟩, now := 110, dur := 0, pressure := false, wake := none, lag := 0, gone := false,
-     required := true, patchInit := true, patchMid := false, patched := some ⟨106, false⟩, tp := 112, tret := 113 },
+     required := true, patchMid := false, patched := some ⟨106, false⟩, tp := 112, tret := 113 },
    { ver := some ⟨107, false⟩, now := 400, dur := 0, pressure := false, wake := none, lag := 0, gone := false,
-     required := true, patchInit := true, patchMid := false, patched := some ⟨107, false⟩, tp := 402, tret := 403 },
+     required := true, patchMid := false, patched := some ⟨107, false⟩, tp := 402, tret := 403 },
    ⟨105, false⟩, rfl, rfl, rfl, rfl, rfl, by decide, by decide, by decide, by decide, by decide, by decide⟩
 
 /-! ### Non-vacuity: concrete iterations (T = 5 s = 320 ticks, idle 320) -/
 
 /-- Iteration k: event 105 at t=100, handlers ran (nothing expected), PATCH applied at 102 → 106. -/
 abbrev exK : Iter :=
-  { ver := some ⟨105, false⟩, now := 100, dur := 0, pressure := false, wake := none, lag := 0, gone := false, required := true, patchInit := true, patchMid := true, patched := some ⟨106, false⟩, tp := 102, tret := 103 }
+  { ver := some ⟨105, false⟩, now := 100, dur := 0, pressure := false, wake := none, lag := 0, gone := false, required := true, patchMid := true, patched := some ⟨106, false⟩, tp := 102, tret := 103 }
 /-- A foreign event 104… (an older view, delivered late) at t=110; a further event wakes the sleep after 6 ticks. -/
 abbrev exForeign : Iter :=
-  { ver := some ⟨104, false⟩, now := 110, dur := 0, pressure := false, wake := some 6, lag := 0, gone := false, required := true, patchInit := true, patchMid := true, patched := none, tp := 116, tret := 116 }
+  { ver := some ⟨104, false⟩, now := 110, dur := 0, pressure := false, wake := some 6, lag := 0, gone := false, required := true, patchMid := true, patched := none, tp := 116, tret := 116 }
 /-- The echo 106 arrives at t=116. -/
 abbrev exEcho : Iter :=
-  { ver := some ⟨106, false⟩, now := 116, dur := 0, pressure := false, wake := none, lag := 0, gone := false, required := true, patchInit := true, patchMid := true, patched := none, tp := 116, tret := 116 }
+  { ver := some ⟨106, false⟩, now := 116, dur := 0, pressure := false, wake := none, lag := 0, gone := false, required := true, patchMid := true, patched := none, tp := 116, tret := 116 }
 /-- A stale event with no further arrivals: the sleep runs into the deadline 103 + 320 = 423. -/
 abbrev exStale : Iter :=
-  { ver := some ⟨104, false⟩, now := 110, dur := 0, pressure := false, wake := none, lag := 0, gone := false, required := true, patchInit := true, patchMid := true, patched := none, tp := 423, tret := 423 }
+  { ver := some ⟨104, false⟩, now := 110, dur := 0, pressure := false, wake := none, lag := 0, gone := false, required := true, patchMid := true, patched := none, tp := 423, tret := 423 }
 
 -- after k the worker expects 106 until 423
 example : (exec 320 Cfg.init [.event exK]).s = { expected := some ⟨106, false⟩, deadline := some 423 } := by decide
 -- a held-back iteration: the stale foreign event sleeps, is woken at 116 by the next arrival, returns early
 example : outcomeAt 320 (exec 320 Cfg.init [.event exK]) exForeign =
     { given := some 423, low := [(.indexing, 110), (.watching, 110), (.spawning, 110)],
-      slept := some ⟨116, false⟩, achieved := false, held := true, entered := none, handlers := none } := by decide
+      slept := some ⟨116, false⟩, achieved := false, held := true, left := 116, wait := some 307, entered := none, handlers := none } := by decide
 -- released by the echo: handlers run at once, on the patched version
 example : (outcomeAt 320 (exec 320 Cfg.init [.event exK, .event exForeign]) exEcho).handlers = some 116 := by decide
 example : (exec 320 Cfg.init [.event exK, .event exForeign, .event exEcho]).s = WState.init := by decide
 -- released by the timeout: handlers run on the stale view, at 423 = tp + T + (tret - tp)
 example : outcomeAt 320 (exec 320 Cfg.init [.event exK]) exStale =
     { given := some 423, low := [(.indexing, 110), (.watching, 110), (.spawning, 110)],
-      slept := some ⟨423, true⟩, achieved := true, held := false, entered := some 423, handlers := some 423 } := by decide
+      slept := some ⟨423, true⟩, achieved := true, held := false, left := 423, wait := none, entered := some 423, handlers := some 423 } := by decide
 -- the hypotheses of `barrier` are met by these runs (both disjuncts occur)
 example : wf 320 320 Cfg.init ([] ++ .event exK :: ([.event exForeign] ++ .event exEcho :: [])) = true := by decide
 example : wf 320 320 Cfg.init ([] ++ .event exK :: ([] ++ .event exStale :: [])) = true := by decide
@@ -562,7 +725,7 @@ example : exK.tp + 320 ≤ (423 : Int) := by decide
 -- the exiting watcher raises the pressure 20 ticks into the sleep of a stale view: held, not released
 example : outcomeAt 320 (exec 320 Cfg.init [.event exK]) { exStale with wake := some 20, tp := 130, tret := 130 } =
     { given := some 423, low := [(.indexing, 110), (.watching, 110), (.spawning, 110)],
-      slept := some ⟨130, false⟩, achieved := false, held := true, entered := none, handlers := none } := by decide
+      slept := some ⟨130, false⟩, achieved := false, held := true, left := 130, wait := some 293, entered := none, handlers := none } := by decide
 -- background patches in `mid` change nothing for the worker: same state, same release by the echo
 example : (exec 320 Cfg.init [.event exK, .background ⟨107, false⟩ 105, .event exForeign]).s
     = (exec 320 Cfg.init [.event exK, .event exForeign]).s := by decide
@@ -573,7 +736,7 @@ example : okStep 320 (exec 320 Cfg.init [.event exK]) (.retire 423) = true := by
 -- paused when the sleep ends at the deadline: dropped (the un-paused twin `exStale` above runs its handlers at 423)
 example : outcomeAt 320 (exec 320 Cfg.init [.event exK]) { exStale with paused := true } =
     { given := some 423, low := [(.indexing, 110), (.watching, 110), (.spawning, 110)],
-      slept := some ⟨423, true⟩, achieved := false, held := true, entered := none, handlers := none } := by decide
+      slept := some ⟨423, true⟩, achieved := false, held := true, left := 423, wait := none, entered := none, handlers := none } := by decide
 -- paused, dequeued after the deadline: no sleep, dropped; un-paused: released at once (`released_after_deadline`)
 example : (outcomeAt 320 (exec 320 Cfg.init [.event exK]) { exStale with now := 500, tp := 500, tret := 500, paused := true }).held = true := by decide
 example : (outcomeAt 320 (exec 320 Cfg.init [.event exK]) { exStale with now := 500, tp := 500, tret := 500 }).handlers = some 500 := by decide
@@ -583,7 +746,21 @@ example : (outcomeAt 320 (exec 320 Cfg.init [.event exK, .event { exStale with p
 -- … or a newer state 107 (a foreign change on top): the deadline is over, released at once when not paused
 example : (outcomeAt 320 (exec 320 Cfg.init [.event exK, .event { exStale with paused := true }])
     { exEcho with ver := some ⟨107, false⟩, now := 600, tp := 600, tret := 600, listed := true }).handlers = some 600 := by decide
+-- a held-back iteration reports what is left till the deadline: woken at 116, 423 - 116 = 307 (`held_comes_back`)
+example : (outcomeAt 320 (exec 320 Cfg.init [.event exK]) exForeign).left = 116 ∧
+    (outcomeAt 320 (exec 320 Cfg.init [.event exK]) exForeign).wait = some 307 := by decide
+-- … nothing while paused, nothing when let through
+example : (outcomeAt 320 (exec 320 Cfg.init [.event exK]) { exStale with paused := true }).wait = none := by decide
+example : (outcomeAt 320 (exec 320 Cfg.init [.event exK]) exStale).wait = none := by decide
+-- a carried patch, while 106 is awaited and the deadline is over: held, "come back at once"
+example : (outcomeAt 320 (exec 320 Cfg.init [.event exK]) { exStale with now := 500, tp := 500, tret := 500, carried := true }).held = true ∧
+    (outcomeAt 320 (exec 320 Cfg.init [.event exK]) { exStale with now := 500, tp := 500, tret := 500, carried := true }).wait = some 0 := by decide
+-- the hypotheses of `come_back_is_released_run` are met: `exForeign` with a no-op patch asked for 423; the touched object arrives then
+example : (outcomeAt 320 (exec 320 Cfg.init ([.event exK] ++ [.event exForeign]))
+    { exEcho with ver := some ⟨108, false⟩, now := 430, tp := 430, tret := 430 }).handlers = some 430 := by decide
+-- a carried patch holds back also when nothing is awaited, and asks to come back at once (`pending_comes_back_at_once`)
+example : (outcomeAt 0 Cfg.init { exK with carried := true }).wait = some 0 := by decide
 -- a pending patch at the entry holds handlers back even without any expectation (T = 0)
-example : (outcomeAt 0 Cfg.init { exK with patchInit := false }).held = true := by decide
+example : (outcomeAt 0 Cfg.init { exK with carried := true }).held = true := by decide
 
 end Kopf.C07
